@@ -106,7 +106,25 @@ def _sizes_are_exact_and_cover_is_total(ctx: Ctx):
         ctx.ob("C07-O1", "R12 NO-CARDINALITY-CUTOFF", g, f"{name} has no way out before it has walked the column", not exits, f"`{ast.unparse(exits[0])}` at line {exits[0].lineno}: a column that is unlinked from the header ring without hiding its rows leaves them selectable - the column can be used twice" if exits else "", node=exits[0] if exits else g.node)
 
 
+def _builder_declines_for_the_matrix_only(ctx: Ctx):
+    """`_build_links` returns no root - and the caller answers with the empty selection - for a matrix without rows or
+    without columns, and for nothing else: what the caller passes as names or as secondary columns does not make the
+    columns of the matrix go away (an empty names list means 'no names')."""
+    import re
+
+    build = ctx.func("dlx", "_build_links")
+    cfg = cfg_of(build.node)
+    gv = GuardView(cfg)
+    outs = [n for n in own_nodes(build.node) if isinstance(n, ast.Return) and isinstance(n.value, ast.Tuple) and n.value.elts and isinstance(n.value.elts[0], ast.Constant) and n.value.elts[0].value is None]
+    ctx.floor("no-root returns of _build_links", len(outs), 1)
+    for r in outs:
+        at = gv.guard_atoms(cfg.node_of(r), stable_only=False)
+        names = {w for a in at for w in re.findall(r"[A-Za-z_]\w*", a)} - {"OR", "NAND", "AND", "F", "T", "not", "None", "is", "in", "and", "or", "len", "IN", "LOOP", "AFTER"}
+        ctx.ob("C07-O6", "R1 STATUS-GUARD", build, "the builder declines (no root: the caller answers the empty selection) only for a matrix without rows or without columns", bool(at) and names <= {"matrix"}, f"declines under {sorted(at)}: a names list or a secondary set that is empty says nothing about the columns of the matrix, and a matrix with primary columns is answered OPTIMAL with the empty selection", node=r)
+
+
 def run(ctx: Ctx):
+    ctx.step(_builder_declines_for_the_matrix_only)
     cover = ctx.func("dlx", "_cover")
     uncover = ctx.func("dlx", "_uncover")
     api = ctx.func("dlx", "solve_exact_cover")
@@ -420,6 +438,11 @@ from sa import mutate as M  # noqa: E402
 DLX = "solvor/dlx.py"
 
 
+def _v_builder_declines_for_empty_names(tree):
+    g = M.find_func(tree, "_build_links")
+    M.replace_expr(g, lambda e: M.src_is(e, "not matrix or not matrix[0]"), M.expr("not matrix or not matrix[0] or (columns is not None and not columns)"))
+
+
 def _v_uncover_same_direction(tree):
     g = M.find_func(tree, "_uncover")
     M.replace_expr(g, lambda e: M.src_is(e, "node.left"), M.expr("node.right"))
@@ -574,6 +597,7 @@ def _v_cover_skips_empty_column(tree):
 
 
 VARIANTS = [
+    M.Variant("an empty names list makes the builder decline: OPTIMAL with the empty selection for a matrix that has columns (seed C07-W)", DLX, _v_builder_declines_for_empty_names, "C07-O6"),
     M.Variant("Result.__post_init__ relabels an OPTIMAL answer with an empty solution as INFEASIBLE (seed C07-U)", "solvor/types.py", _v_result_post_init, "C07-G7"),
     M.Variant("secondary columns are not counted in their header's size (half of seed C07-V)", DLX, _v_secondary_sizes_not_counted, "C07-O1"),
     M.Variant("_cover returns early for a header of size 0 (other half of seed C07-V)", DLX, _v_cover_skips_empty_column, "C07-O1"),
